@@ -158,8 +158,49 @@ def _mk(assumptions, formula=None):
     return s
 
 
+class MergedModel(object):
+    """model of the query (over the cone of influence) completed by a model of the assumptions that were filtered away because they
+    share no symbol with it: a counterexample handed to the replay must satisfy EVERY input assumption / path condition, not only the
+    relevant ones (the two symbol sets are disjoint by construction of the cone)"""
+
+    def __init__(self, main, rest):
+        self.main, self.rest = main, rest
+
+    def eval(self, t, model_completion=False):
+        v = self.main.eval(t, model_completion=False)
+        return self.rest.eval(v, model_completion=model_completion)
+
+    def __getattr__(self, name):
+        return getattr(self.main, name)
+
+
+def _complete_model(model, assumptions, formula, timeout_ms):
+    """extend a model of the filtered query to the assumptions dropped by the cone-of-influence reduction"""
+    try:
+        pool = list(state.S.axioms) + [a for a in [getattr(x, 'e', x) for x in assumptions] if not isinstance(a, bool)]
+        kept = set(a.get_id() for a in _relevant(pool, [formula]))
+        dropped = [a for a in pool if a.get_id() not in kept]
+        if not dropped:
+            return model
+        s = z3.Solver()
+        s.add(*dropped)
+        r, _ = _check(s, min(timeout_ms, 20000))
+        if r == 'sat':
+            return MergedModel(model, s.model())
+    except Exception:
+        pass
+    return model
+
+
 def check_sat(formula, assumptions=(), timeout_ms=60000, cross=True):
     """decide satisfiability of formula under axioms+assumptions"""
+    v = _check_sat(formula, assumptions, timeout_ms, cross)
+    if v.status == 'sat' and v.model is not None and not z3.is_true(formula):
+        v.model = _complete_model(v.model, assumptions, formula, timeout_ms)
+    return v
+
+
+def _check_sat(formula, assumptions=(), timeout_ms=60000, cross=True):
     s = _mk(assumptions, None if z3.is_true(formula) else formula)     # satisfiability of the assumptions themselves: no filtering
     s.add(formula)
     r, dt = _check(s, timeout_ms)
